@@ -6,10 +6,12 @@ VERIF = os.path.dirname(os.path.dirname(os.path.abspath(__file__)))
 SPEC = os.path.join(VERIF, "spec")
 BUILD = os.path.join(VERIF, "build")
 UNIVERSE = os.path.join(BUILD, "universe")
-REPLAYS = os.path.join(VERIF, "replays")
-EVIDENCE = os.path.join(VERIF, "evidence")
+REPLAYS = os.path.join(os.environ["JDV_EVIDENCE_DIR"], "replays") if os.environ.get("JDV_EVIDENCE_DIR") else os.path.join(VERIF, "replays")
+EVIDENCE = os.environ.get("JDV_EVIDENCE_DIR") or os.path.join(VERIF, "evidence")   # development runs write elsewhere
 TLA_CP = "/opt/veriftools/tla/tla2tools.jar:/opt/veriftools/tla/CommunityModules-deps.jar"
 NSHARDS = 16
+# /repo unless a development run points the machinery at a scratch worktree (seeded-change testing in parallel)
+REPO = os.environ.get("JDV_REPO", "/repo")
 
 GOENV = dict(GOFLAGS="-mod=mod", GOPROXY="off", GOSUMDB="off", GOTOOLCHAIN="local")
 
@@ -83,11 +85,33 @@ def tlc_error_text(res, n=40):
     return "\n".join(keep[-n:])
 
 
-TUPLE = re.compile(r'^<<"JDV-(FAIL|NOTE|DONE|KNOWN|STAT)", (.*)>>$')
+TUPLE = re.compile(r'^<<\s*"JDV-(FAIL|NOTE|DONE|KNOWN|STAT)",\s*(.*)>>$')
+
+
+def join_wrapped(lines):
+    """TLC wraps long printed tuples over several lines: glue them back together"""
+    out, buf = [], None
+    for ln in lines:
+        t = ln.strip()
+        if buf is None:
+            if re.match(r'^<<\s*"JDV-', t):
+                buf = t
+            else:
+                out.append(ln)
+                continue
+        else:
+            buf += " " + t
+        if buf.count("<<") <= buf.count(">>"):
+            out.append(re.sub(r"\s+", " ", buf).replace("<< ", "<<").replace(" >>", ">>"))
+            buf = None
+    if buf is not None:
+        out.append(buf)
+    return out
 
 
 def parse_verdicts(lines):
     """JDV lines -> dict(fail=[(sess, prop, clause)], note=[...], known=[...], done={shard: n}, stat={})"""
+    lines = join_wrapped(lines)
     out = dict(fail=[], note=[], known=[], done={}, stat={})
     for ln in lines:
         m = TUPLE.match(ln.strip())
@@ -115,7 +139,7 @@ def parse_verdicts(lines):
 # --------------------------------------------------------------------------- universe / harness
 def ensure_universe(force=False):
     marker = os.path.join(UNIVERSE, "DONE")
-    src = [os.path.join(SPEC, f) for f in ("Universe.tla", "GenUniverse.tla", "JsonValue.tla", "GenHunks.tla", "DiffText.tla", "Patch.tla")]
+    src = [os.path.join(SPEC, f) for f in ("Universe.tla", "GenUniverse.tla", "JsonValue.tla", "GenHunks.tla", "DiffText.tla", "Patch.tla", "JsonPatch.tla", "Api.tla", "GenApi.tla", "Cli.tla", "GenCli.tla")]
     stamp = hashlib.sha256(b"".join(open(f, "rb").read() for f in src)).hexdigest()
     if not force and os.path.exists(marker) and open(marker).read().strip() == stamp:
         return
@@ -131,6 +155,12 @@ def ensure_universe(force=False):
         r = run_tlc(sc, "GenHunks", "INIT GenInit\nNEXT GenNext\n", env={"JDV_OUT": UNIVERSE}, workers=1, timeout=1200)
         if not tlc_ok(r):
             raise Infra("hunk export failed:\n" + tlc_error_text(r))
+        r = run_tlc(sc, "GenApi", "INIT ApiInit\nNEXT ApiNext\nCONSTANT MaxLen = 0\nCHECK_DEADLOCK FALSE\n", env={"JDV_OUT": UNIVERSE}, workers=1, timeout=600)
+        if not tlc_ok(r):
+            raise Infra("history export failed:\n" + tlc_error_text(r))
+        r = run_tlc(sc, "GenCli", "INIT GenInit\nNEXT GenNext\n", env={"JDV_OUT": UNIVERSE}, workers=1, timeout=600)
+        if not tlc_ok(r):
+            raise Infra("invocation export failed:\n" + tlc_error_text(r))
     finally:
         sc.close()
     with open(marker, "w") as f:
@@ -142,7 +172,10 @@ def build_harness(scratch):
     hd = os.path.join(scratch.dir, "harness")
     shutil.copytree(os.path.join(VERIF, "harness"), hd)
     sums = set()
-    for p in ("/repo/go.sum", "/repo/v2/go.sum"):
+    gm = open(os.path.join(hd, "go.mod")).read().replace("=> /repo/v2", "=> %s/v2" % REPO).replace("=> /repo\n", "=> %s\n" % REPO)
+    with open(os.path.join(hd, "go.mod"), "w") as f:
+        f.write(gm)
+    for p in (REPO + "/go.sum", REPO + "/v2/go.sum"):
         if os.path.exists(p):
             sums.update(open(p).read().splitlines())
     with open(os.path.join(hd, "go.sum"), "w") as f:
@@ -162,7 +195,7 @@ def build_binaries(scratch):
     e = dict(os.environ)
     e.update(GOENV)
     bins = {}
-    for name, cwd, pkg in (("v2", "/repo/v2", "./jd"), ("top", "/repo", ".")):
+    for name, cwd, pkg in (("v2", REPO + "/v2", "./jd"), ("top", REPO, ".")):
         out = os.path.join(scratch.dir, "jd-" + name)
         p = subprocess.run(["go1.26", "build", "-o", out, pkg], cwd=cwd, env=e,
                            stdout=subprocess.PIPE, stderr=subprocess.STDOUT, text=True)
@@ -229,6 +262,10 @@ def judge(scratch, module, props, trace, tag, constants=None, timeout=3600):
     consumed = sum(v["done"].values())
     if not tlc_ok(r):
         raise Infra("trace validation (%s) did not complete:\n%s" % (module, tlc_error_text(r)))
+    for kind in ("FAIL", "KNOWN", "NOTE"):
+        raw = sum(ln.count('"JDV-%s"' % kind) for ln in r["out"])
+        if raw != len(v[kind.lower()]):
+            raise Infra("verdict parser saw %d of %d JDV-%s lines" % (len(v[kind.lower()]), raw, kind))
     if consumed != trace["records"] or len(v["done"]) != NSHARDS:
         raise Infra("trace validation consumed %d of %d records" % (consumed, trace["records"]))
     v["tlc"] = r
